@@ -116,6 +116,10 @@ func VerifH_C16_job() {
 	}
 	if vz.Bool("hasSubstitutions") {
 		rj.Spec.Substitutions = map[string]string{"jobconfig.name": "explicit", "option.a": "1"}
+		if vz.Bool("emptyExplicitSubstitution") {
+			// an explicit empty value is still the submitter's value
+			rj.Spec.Substitutions["jobconfig.namespace"] = ""
+		}
 	}
 	in := rj.DeepCopy()
 
@@ -198,6 +202,10 @@ func VerifH_C16_job() {
 		if in.Spec.Substitutions != nil {
 			vz.Assert(once.Spec.Substitutions["jobconfig.name"] == "explicit", "C16/explicit-substitution-wins")
 			vz.Assert(once.Spec.Substitutions["option.a"] == "1", "C16/explicit-substitution-wins")
+			if v, ok := in.Spec.Substitutions["jobconfig.namespace"]; ok {
+				vz.Assert(once.Spec.Substitutions["jobconfig.namespace"] == v, "C16/explicit-substitution-wins")
+				vz.Cover("explicit-empty-substitution")
+			}
 		} else {
 			vz.Assert(once.Spec.Substitutions["jobconfig.name"] == "jc", "C16/jobconfig-context-added")
 		}
